@@ -77,6 +77,8 @@ impl Reservoir {
             // `0..=idx`. Drawing from `0..idx` over-retains late items, and is an empty range for
             // a zero-capacity reservoir.
             let maybe_idx = fastrand(idx + 1);
+            #[cfg(metrics_verif)]
+            metrics::__verif::probe("reservoir.replacement_draw");
 
             if maybe_idx < self.values.len() {
                 self.values[maybe_idx].store(value.to_bits(), Relaxed);
